@@ -60,11 +60,11 @@ SYSCALL_KIND = {1: "pwrite", 2: "write", 3: "fsync", 4: "unlink", 5: "ftruncate"
 
 
 def tier_runs(tier):
-    return 80 if tier == "quick" else 2400
+    return 112 if tier == "quick" else 2400     # 7 full rotations through the 16 kinds of write operation
 
 
 def tier_budget_s(tier):
-    return 1200 if tier == "quick" else 9000
+    return 900 if tier == "quick" else 9000
 
 
 def worker_init(ctx):
